@@ -545,4 +545,89 @@ theorem xcopy_spec {u : Univ} (hu : UWF u) {src : St} (hs : Inv u src) : ∀ fue
                 · exact Or.inl ⟨h1, h2⟩
                 · exact Or.inr ⟨t, t', c', h1, h2, h3, refClass_of_idx hm h5, h7 s'' hch n⟩
 
+/-! ### two buffers -/
+
+theorem xcopyAt_spec {u : Univ} (hu : UWF u) {src dst : St} (hs : Inv u src) (hd : Inv u dst) {fuel h : Nat} {d' : St} {o : Nat}
+    (hx : xcopyAt u fuel src dst h = some (d', o)) (hcap : d'.b.a.capacity < 2 ^ 62) :
+    Inv u d' ∧ dst.b.a.capacity ≤ d'.b.a.capacity := by
+  unfold xcopyAt at hx
+  split at hx
+  · cases hx
+  · rename_i c hc
+    cases hf : findObj src h with
+    | none => rw [hf] at hc; cases hc
+    | some e =>
+      rw [hf] at hc
+      simp only [Option.bind_some] at hc
+      obtain ⟨he, ha, _⟩ := findObj_spec hf
+      obtain ⟨i1, _, i3, _⟩ := xcopy_spec hu hs fuel dst h c d' o hd ⟨e, he, ha, hc⟩ hx hcap
+      exact ⟨i1, i3⟩
+
+theorem xcopyAt_cap (u : Univ) (fuel : Nat) (src dst : St) (h : Nat) :
+    dst.b.a.capacity ≤ (((xcopyAt u fuel src dst h).map (·.1)).getD dst).b.a.capacity := by
+  cases hx : xcopyAt u fuel src dst h with
+  | none => exact Nat.le_refl _
+  | some r =>
+    obtain ⟨d', o⟩ := r
+    simp only [Option.map_some, Option.getD_some]
+    unfold xcopyAt at hx
+    split at hx
+    · cases hx
+    · exact xcopy_cap u src fuel _ _ _ _ _ hx
+
+theorem step2_cap (u : Univ) (fuel : Nat) (p : St2) (op : Op2) :
+    p.a.b.a.capacity ≤ (step2 u fuel p op).a.b.a.capacity ∧ p.b.b.a.capacity ≤ (step2 u fuel p op).b.b.a.capacity := by
+  cases op with
+  | inA op => exact ⟨step_cap u p.a op, Nat.le_refl _⟩
+  | inB op => exact ⟨Nat.le_refl _, step_cap u p.b op⟩
+  | copyAB h => exact ⟨Nat.le_refl _, xcopyAt_cap u fuel p.a p.b h⟩
+  | copyBA h => exact ⟨xcopyAt_cap u fuel p.b p.a h, Nat.le_refl _⟩
+
+theorem fold2_cap (u : Univ) (fuel : Nat) : ∀ (ops : List Op2) (p : St2),
+    p.a.b.a.capacity ≤ (ops.foldl (step2 u fuel) p).a.b.a.capacity ∧ p.b.b.a.capacity ≤ (ops.foldl (step2 u fuel) p).b.b.a.capacity
+ | [], _ => ⟨Nat.le_refl _, Nat.le_refl _⟩
+ | op :: ops, p => by
+    have h1 := step2_cap u fuel p op
+    have h2 := fold2_cap u fuel ops (step2 u fuel p op)
+    simp only [List.foldl_cons]
+    exact ⟨Nat.le_trans h1.1 h2.1, Nat.le_trans h1.2 h2.2⟩
+
+theorem step2_inv {u : Univ} (hu : UWF u) {fuel : Nat} {p : St2} (ha : Inv u p.a) (hb : Inv u p.b) (op : Op2)
+    (hca : (step2 u fuel p op).a.b.a.capacity < 2 ^ 62) (hcb : (step2 u fuel p op).b.b.a.capacity < 2 ^ 62) :
+    Inv u (step2 u fuel p op).a ∧ Inv u (step2 u fuel p op).b := by
+  cases op with
+  | inA op => exact ⟨step_inv hu ha op hca, hb⟩
+  | inB op => exact ⟨ha, step_inv hu hb op hcb⟩
+  | copyAB h =>
+    refine ⟨ha, ?_⟩
+    simp only [step2] at hcb ⊢
+    cases hx : xcopyAt u fuel p.a p.b h with
+    | none => simpa [hx] using hb
+    | some r =>
+      obtain ⟨d', o⟩ := r
+      rw [hx] at hcb
+      simp only [Option.map_some, Option.getD_some] at hcb ⊢
+      exact (xcopyAt_spec hu ha hb hx hcb).1
+  | copyBA h =>
+    refine ⟨?_, hb⟩
+    simp only [step2] at hca ⊢
+    cases hx : xcopyAt u fuel p.b p.a h with
+    | none => simpa [hx] using ha
+    | some r =>
+      obtain ⟨d', o⟩ := r
+      rw [hx] at hca
+      simp only [Option.map_some, Option.getD_some] at hca ⊢
+      exact (xcopyAt_spec hu hb ha hx hca).1
+
+/-- **every reachable state of two buffers** -/
+theorem history2_inv {u : Univ} (hu : UWF u) (fuel : Nat) : ∀ (ops : List Op2) (p : St2), Inv u p.a → Inv u p.b →
+    (ops.foldl (step2 u fuel) p).a.b.a.capacity < 2 ^ 62 → (ops.foldl (step2 u fuel) p).b.b.a.capacity < 2 ^ 62 →
+    Inv u (ops.foldl (step2 u fuel) p).a ∧ Inv u (ops.foldl (step2 u fuel) p).b
+ | [], _, ha, hb, _, _ => ⟨ha, hb⟩
+ | op :: ops, p, ha, hb, hca, hcb => by
+    have h1 := fold2_cap u fuel ops (step2 u fuel p op)
+    simp only [List.foldl_cons] at hca hcb ⊢
+    obtain ⟨i1, i2⟩ := step2_inv hu ha hb op (Nat.lt_of_le_of_lt h1.1 hca) (Nat.lt_of_le_of_lt h1.2 hcb)
+    exact history2_inv hu fuel ops (step2 u fuel p op) i1 i2 hca hcb
+
 end RG
